@@ -3,6 +3,7 @@ package main
 import (
 	"fmt"
 	"go/token"
+	"sort"
 	"strings"
 
 	"golang.org/x/tools/go/ssa"
@@ -99,10 +100,28 @@ func runC19(c *Ctx) {
 		}
 	}
 	var writeLoop *ssa.BasicBlock
+	// a write underneath sits in Flush itself, or in a function only Flush calls (the application of
+	// one entry moved into a helper): `outer` is the instruction in Flush, `cs` the write itself
+	type realWrite struct {
+		cs    callSite
+		in    *ssa.Function
+		outer ssa.CallInstruction
+	}
+	var writes []realWrite
 	for _, cs := range c.calls(fl, isReal) {
+		writes = append(writes, realWrite{cs, fl, cs.Instr})
+	}
+	for g, site := range c.localHelpers(fl, false) {
+		for _, cs := range c.calls(g, isReal) {
+			writes = append(writes, realWrite{cs, g, site})
+		}
+	}
+	sort.Slice(writes, func(i, j int) bool { return writes[i].cs.Pos() < writes[j].cs.Pos() })
+	for _, w := range writes {
+		cs := w.cs
 		m := methodName(cs.Common())
-		c.requireAt("C19.no-early-write", "Flush writes underneath only on commit", cs.Instr, wTrue("write", `^\$0$`))
-		c.requireAt("C19.no-early-write", "Flush writes only while still layered", cs.Instr, wFalse("not yet flushed", `\.flushed$`))
+		c.requireAt("C19.no-early-write", "Flush writes underneath only on commit", w.outer, wTrue("write", `^\$0$`))
+		c.requireAt("C19.no-early-write", "Flush writes only while still layered", w.outer, wFalse("not yet flushed", `\.flushed$`))
 		_, a := callArgs(cs.Common())
 		if m == "Delete" {
 			c.requireAt("C19.tombstone", "Flush deletes exactly the tombstones", cs.Instr, wSame("entry value == nil", `\.value$`, `^nil$`))
@@ -113,15 +132,22 @@ func runC19(c *Ctx) {
 		c.check(strings.HasSuffix(render(a[0]), ".key"), "C19.tombstone", "Flush "+m+" uses the recorded key", cs.Pos(), render(a[0]), "key is "+render(a[0]))
 		r, _ := callArgs(cs.Common())
 		c.check(strings.Contains(render(r), ".bk.real"), "C19.tombstone", "Flush "+m+" targets the entry's own bucket", cs.Pos(), render(r), "target is "+render(r))
-		if h := loopHeaderOf(cs.Instr.Block()); h != nil {
+		if h := loopHeaderOf(w.outer.Block()); h != nil {
 			writeLoop = h
 		}
 		// errors abort the commit
-		errV := cs.Instr.Value()
 		propagated := false
-		for _, e := range exitAlts(fl) {
-			if e.Results[0] == ssa.Value(errV) {
+		for _, e := range exitAlts(w.in) {
+			if e.Results[len(e.Results)-1] == ssa.Value(cs.Instr.Value()) {
 				propagated = true
+			}
+		}
+		if w.in != fl && propagated {
+			propagated = false
+			for _, e := range exitAlts(fl) {
+				if e.Results[0] == w.outer.Value() {
+					propagated = true
+				}
 			}
 		}
 		c.check(propagated, "C19.commit-bookkeeping", "Flush aborts on a failed "+m, cs.Pos(), "error returned", "a failed write underneath is ignored and the commit reports success")
